@@ -59,6 +59,10 @@ def handle (st : DState) (line : String) : DState × String :=
             match xs0 with
             | lo :: xs => (st, showIntList (Py.sliceFromI xs lo))
             | _ => (st, "bad-op")
+          else if op == "fromhex" then
+            (st, showExcept showIntList (Py.fromhex xs0))
+          else if op == "subws" then
+            (st, showIntList (Py.subWs xs0))
           else if op == "range" then
             match xs0 with
             | [n] => (st, showIntList (Py.rangeInt n))
